@@ -53,3 +53,15 @@ def drop_one(lst):
     """Shrink candidates: the list with one element removed, for each element."""
     for i in range(len(lst)):
         yield lst[:i] + lst[i + 1:]
+
+
+def wait_until(k, pred, max_s=300.0):
+    """Block the calling simulated thread until pred() holds (checked by the scheduler) or max_s simulated seconds."""
+    ok = k.block_until(pred, k.now_ns + int(max_s * 1e9), why="wait_until")
+    k.settle()
+    return ok
+
+
+def wait_delivery(k, w, max_s=300.0):
+    """Wait until every snapshot handed to PushService has been attempted at the service (or max_s)."""
+    return wait_until(k, lambda: len(w.service.send_attempts) >= len(w.pushed), max_s)
